@@ -146,3 +146,85 @@ Example C21_nonvacuous :
   run_pick_list ex_tables kwlist [Some [65]; Some [97]; Some [65; 50]; None] [] =
     Some [[65]; [97; 50]; [65; 50; 95; 50]; [66]].
 Proof. vm_compute. repeat split. Qed.
+
+(* ==== the code itself ==========================================================================================
+   GristGen.Ident_gen is identifiers.py translated by harness/id2v.py from the CURRENT source on every run
+   (src_sanitize_ident, src_add_suffix, src_maybe_add_suffix, src_uppercase, src_gen_ident, src_pick_table_ident,
+   src_pick_col_ident, src_pick_col_ident_list).  The bridging theorems say that each translated function equals the
+   model function pointwise (no hypothesis on the oracles); the C21_code_* theorems are the property about the
+   translated functions. *)
+Require Import Grist.Lib.IdPrelude GristGen.Ident_gen Grist.Proofs.Ident_bridge.
+
+Section C21_code.
+  Variable nfkd : str -> str.
+  Variable combining : Z -> bool.
+  Variable upper_char cap_char : Z -> str.
+  Variable udigit : Z -> bool.
+
+  Local Notation s_col := (src_pick_col_ident nfkd combining upper_char cap_char udigit kwlist).
+  Local Notation s_table := (src_pick_table_ident nfkd combining upper_char cap_char udigit kwlist).
+  Local Notation s_list := (src_pick_col_ident_list nfkd combining upper_char cap_char udigit kwlist).
+  Local Notation up := (upper upper_char).
+
+  Theorem C21_bridge_uppercase : forall avoid, src_uppercase upper_char avoid = uppercase upper_char avoid.
+  Proof. exact (bridge_uppercase upper_char). Qed.
+  Theorem C21_bridge_sanitize_ident : forall ident prefix capitalize,
+    src_sanitize_ident nfkd combining cap_char kwlist ident prefix capitalize
+    = sanitize_ident nfkd combining cap_char kwlist ident prefix capitalize.
+  Proof. exact (bridge_sanitize_ident nfkd combining cap_char kwlist). Qed.
+  Theorem C21_bridge_add_suffix : forall base avoid k,
+    src_add_suffix upper_char udigit base avoid k = add_suffix upper_char udigit base avoid k.
+  Proof. exact (bridge_add_suffix upper_char udigit). Qed.
+  Theorem C21_bridge_maybe_add_suffix : forall ident avoid,
+    src_maybe_add_suffix upper_char udigit ident avoid = maybe_add_suffix upper_char udigit ident avoid.
+  Proof. exact (bridge_maybe_add_suffix upper_char udigit). Qed.
+  Theorem C21_bridge_gen_ident : forall avoid, src_gen_ident upper_char avoid = gen_ident upper_char avoid.
+  Proof. exact (bridge_gen_ident upper_char). Qed.
+  Theorem C21_bridge_pick_table_ident : forall ident avoid,
+    s_table ident avoid = pick_table_ident nfkd combining upper_char cap_char udigit kwlist ident avoid.
+  Proof. exact (bridge_pick_table_ident nfkd combining upper_char cap_char udigit kwlist). Qed.
+  Theorem C21_bridge_pick_col_ident : forall ident avoid,
+    s_col ident avoid = pick_col_ident nfkd combining upper_char cap_char udigit kwlist ident avoid.
+  Proof. exact (bridge_pick_col_ident nfkd combining upper_char cap_char udigit kwlist). Qed.
+  Theorem C21_bridge_pick_col_ident_list : forall idents avoid,
+    s_list idents avoid = pick_col_ident_list nfkd combining upper_char cap_char udigit kwlist idents avoid.
+  Proof. exact (bridge_pick_col_ident_list nfkd combining upper_char cap_char udigit kwlist). Qed.
+
+  Theorem C21_code_terminates : upper_ok upper_char -> cap_ok cap_char -> forall ident idents avoid,
+    s_col ident avoid <> None /\ s_table ident avoid <> None /\ s_list idents avoid <> None.
+  Proof. intros U C. exact (code_terminates nfkd combining upper_char cap_char udigit kwlist U C C21_kwlist_facts). Qed.
+
+  Theorem C21_code_pick_col_ident : upper_ok upper_char -> cap_ok cap_char ->
+    forall ident avoid r, s_col ident avoid = Some r ->
+    valid_identb r = true /\ iskeyword kwlist r = false /\ (forall a, In a avoid -> up r <> up a).
+  Proof. intros U C. exact (code_pick_col nfkd combining upper_char cap_char udigit kwlist U C C21_kwlist_facts). Qed.
+
+  Theorem C21_code_pick_table_ident : upper_ok upper_char -> cap_ok cap_char ->
+    forall ident avoid r, s_table ident avoid = Some r ->
+    valid_table_identb r = true /\ valid_identb r = true /\ iskeyword kwlist r = false /\
+    (forall a, In a avoid -> up r <> up a).
+  Proof. intros U C. exact (code_pick_table nfkd combining upper_char cap_char udigit kwlist U C C21_kwlist_facts). Qed.
+
+  Theorem C21_code_pick_col_ident_list : upper_ok upper_char -> cap_ok cap_char ->
+    forall idents avoid rs, s_list idents avoid = Some rs ->
+    length rs = length idents /\
+    Forall (fun r => valid_identb r = true /\ iskeyword kwlist r = false) rs /\
+    (forall r, In r rs -> forall a, In a avoid -> up r <> up a) /\
+    NoDup (map up rs) /\ NoDup (map (map ascii_upper) rs).
+  Proof. intros U C. exact (code_pick_list nfkd combining upper_char cap_char udigit kwlist U C C21_kwlist_facts). Qed.
+
+  Theorem C21_code_valid_unused_kept : cap_ok cap_char -> nfkd_ok nfkd -> combining_ok combining ->
+    forall s avoid, valid_identb s = true -> iskeyword kwlist s = false ->
+    (forall a, In a avoid -> up s <> up a) ->
+    s_col (Some s) avoid = Some s /\ (valid_table_identb s = true -> s_table (Some s) avoid = Some s).
+  Proof. exact (code_kept nfkd combining upper_char cap_char udigit kwlist). Qed.
+
+  Theorem C21_code_valid_unused_kept_batch_element :
+    cap_ok cap_char -> nfkd_ok nfkd -> combining_ok combining -> upper_idem_ok upper_char ->
+    forall pre s post avoid rs, s_list (pre ++ Some s :: post) avoid = Some rs ->
+    valid_identb s = true -> iskeyword kwlist s = false ->
+    (forall a, In a avoid -> up s <> up a) ->
+    (forall r, In r (firstn (length pre) rs) -> up s <> up r) ->
+    nth_error rs (length pre) = Some s.
+  Proof. exact (code_kept_batch_element nfkd combining upper_char cap_char udigit kwlist). Qed.
+End C21_code.
